@@ -51,7 +51,7 @@ NOCHECKPTR = [("crypto/sha3/xor_unaligned.go", r"^func xorInUnaligned\(")]
 # (file, regex to find the line AFTER which the point is inserted, point name)
 DELAY_POINTS = [
     ("protocol/pushpull.go", r"^\s*m\.makeRequest\(id, hash\)\s*$", "pushpull.afterMakeRequest", "after"),
-    ("core/mempool/txpool.go", r"^\s*appState, err := pool\.appState\.Readonly\(pool\.head\.Height\(\)\)\s*$", "txpool.afterReadonly", "after"),
+    ("core/mempool/txpool.go", r"^\s*appState, err := pool\.appState\.Readonly\(pool\.(?:head|getHead\(\))\.Height\(\)\)\s*$", "txpool.afterReadonly", "after"),
 ]
 
 
